@@ -3,6 +3,7 @@ package rules
 import (
 	"fmt"
 	"go/ast"
+	"go/token"
 	"go/types"
 	"strings"
 
@@ -170,12 +171,11 @@ func ruleVMBalanceTracking(c *core.Ctx) {
 					return true
 				}
 				okSkip := false
-				for _, f := range astx.FactsAt(info, d.Decl.Body, br.Pos()) {
-					s := types.ExprString(f.Cond)
-					if f.Positive && strings.Contains(s, `== "world"`) {
+				for _, f := range xfactsAt(info, d.Decl.Body, br.Pos()) {
+					if be, isBin := f.Cond.(*ast.BinaryExpr); isBin && f.Positive && be.Op == token.EQL && (isWorldConst(info, be.X) || isWorldConst(info, be.Y)) {
 						okSkip = true
 					}
-					if !f.Positive && s == "ok" {
+					if id, isId := f.Cond.(*ast.Ident); isId && !f.Positive && isCommaOkOfBalances(info, d.Decl.Body, id) {
 						okSkip = true
 					}
 				}
@@ -185,4 +185,26 @@ func ruleVMBalanceTracking(c *core.Ctx) {
 		}
 		c.Check(ok, "FLOW/vm-balances", declKey(d)+":tracks", pos(c, d.Decl), sp.what, "Machine."+sp.name+" no longer updates the running balance (m.Balances[account][asset] = old."+sp.op+"(amount)): an account used both without and with a bound in one script is checked against a stale balance and can be overdrawn beyond its allowance")
 	}
+}
+
+// isCommaOkOfBalances: id is the boolean of a comma-ok lookup in the machine's balances
+// (`x, ok := m.Balances[acct]` or a lookup in an alias of such an entry).
+func isCommaOkOfBalances(info *types.Info, body *ast.BlockStmt, id *ast.Ident) bool {
+	obj := info.ObjectOf(id)
+	found := false
+	ast.Inspect(body, func(n ast.Node) bool {
+		as, ok := n.(*ast.AssignStmt)
+		if !ok || len(as.Lhs) != 2 || len(as.Rhs) != 1 {
+			return true
+		}
+		l, ok := as.Lhs[1].(*ast.Ident)
+		if !ok || info.ObjectOf(l) != obj {
+			return true
+		}
+		if _, isIx := ast.Unparen(as.Rhs[0]).(*ast.IndexExpr); isIx {
+			found = true
+		}
+		return true
+	})
+	return found
 }
